@@ -318,6 +318,19 @@ func c19One(c *core.Ctx, cs c19Case, sample bool) {
 	}
 }
 
+// c19ConnErrors: what a failing connection operation may return - including
+// errors that already are of the library's error type.
+var c19ConnErrors = []error{
+	errors.New("injected connection failure"),
+	res.ErrTimeout,
+	res.ErrNotFound,
+	res.ErrAccessDenied,
+	&res.Error{Code: "custom.broken", Message: "link down", Data: 1},
+	fmt.Errorf("wrapped: %w", res.ErrTimeout),
+	nats.ErrConnectionClosed,
+	nats.ErrTimeout,
+}
+
 func c19Faults(c *core.Ctx, p c19Params) {
 	for i := 0; i < p.N; i++ {
 		kind := []string{"marshal", "subscribe", "publish"}[i%3]
@@ -327,15 +340,19 @@ func c19Faults(c *core.Ctx, p c19Params) {
 		case "marshal":
 			req = []interface{}{make(chan int), func() {}, badMarshaler{}}[(i/3)%3]
 		case "subscribe":
-			sc.subErr = errors.New("injected subscribe failure")
+			sc.subErr = c19ConnErrors[(i/3)%len(c19ConnErrors)]
 		case "publish":
-			sc.pubErr = errors.New("injected publish failure")
+			sc.pubErr = c19ConnErrors[(i/3)%len(c19ConnErrors)]
 		}
 		t0 := time.Now()
 		resp := resprot.SendRequest(sc, "call.svc.x.do", req, 800*time.Millisecond)
 		elapsed := time.Since(t0)
 		c.Eval(1)
 		desc := map[string]interface{}{"fault": kind, "response": jsonStr(resp), "elapsed_ms": elapsed.Milliseconds()}
+		if kind != "marshal" {
+			e := c19ConnErrors[(i/3)%len(c19ConnErrors)]
+			desc["connection_error"] = fmt.Sprintf("%T: %v", e, e)
+		}
 		if resp.Error == nil || resp.Error.Code != res.CodeInternalError {
 			c.Violation("C19/fault-not-internal-error:"+kind, fmt.Sprintf("%s failure reported as %s, want system.internalError", kind, jsonStr(resp)), desc)
 		}
@@ -348,7 +365,7 @@ func c19Faults(c *core.Ctx, p c19Params) {
 		if (kind == "marshal" && (subs != 0 || pubs != 0)) || (kind == "subscribe" && pubs != 0) {
 			c.Violation("C19/fault-continued:"+kind, fmt.Sprintf("after a %s failure SendRequest still made %d subscribe and %d publish calls", kind, subs, pubs), desc)
 		}
-		c.Distinct(fmt.Sprintf("%s/%d", kind, i%9))
+		c.Distinct(fmt.Sprintf("%s/%d", kind, i%(3*len(c19ConnErrors))))
 	}
 	// nil request is sent as {}
 	sc := &scriptConn{cs: c19Case{Msgs: []c19Msg{{At: 0, Kind: "response-result", Payload: `{"result":1}`}}}, done: make(chan struct{}), returned: make(chan struct{})}
